@@ -165,6 +165,9 @@ _T["C19"] = ("Theorems numeric_entry / channel_entry: for every well-formed nume
 _T["C06"] = ("Theorem framing: for every context (any table, any scripts, any state left by earlier messages) and every message, the bytes written while SCPI_Parse runs are exactly frame(items of its units): response units separated by single ';', items by single ',', one line terminator and one flush iff at least one unit responded, nothing otherwise (silent_message); the item record is tied to the writers by item_of_int / item_of_text / item_of_block. Hypothesis gPartial = false excludes misuse of the streaming block API (unfinished block, item started inside a block, data without header).",
             "Lean kernel + standard axioms; ghost item bookkeeping in the model (proved not to influence the real fields); context model tied to parser.c by scripted differential testing, output judged byte-exactly against frame() over independently encoded items",
             "Lean 4 invariant proof over the output state machine + differential correspondence")
+_T["C17"] = ("Theorems header_spec (every length below 10^9: '#', digit count 1..9, decimal length; fits the 12-byte scratch), block_spec, block_stream (every split of the data into chunks summing to the announced length: data unchanged, counted as one item at completion and not before), over_length_refused (-310, nothing written, remaining length unchanged), array_binary for every element size and BOTH host byte orders (elements big-endian for NORMAL, little-endian for SWAPPED; an empty array still counts as one item), array_bad_size.",
+            "Lean kernel + standard axioms; translator for the block-header scratch size and conversion call; model tied to parser.c/utils.c by scripted differential testing with an independent streaming encoder as judge; the host of the harness is little-endian (the big-endian case is covered by the theorem only)",
+            "Lean 4 theorems over the result-writer model + differential correspondence")
 _T["C01"] = ("PARTIAL BY NATURE. Theorems (Props/C01.lean): every recogniser keeps its cursor and token extent inside its input (from the C13 theorems, block recogniser included); the unit detector always makes progress and never leaves its input, so the unit loop of SCPI_Parse and the scan loop of SCPI_Input terminate; SCPI_Parse never exhausts its step budget, never composes a header before the start of the buffer and modifies no byte outside the message; SCPI_Input keeps position < buffer length for every chunk history; an over-long chunk copies nothing; SCPI_ParamCopyText and the array readers never store beyond the caller's capacity. These are statements about the algorithm as modelled: a C-level out-of-bounds read caused by a broken check-then-read pair, signed overflow or libc reading past a token cannot be exhibited by the model; for those the evidence is testing: every correspondence domain runs under ASan+UBSan with exact-size heap objects, canaries, a watchdog and the guarded buffer-tail poisoning hook, in four build configurations.",
             "Lean kernel + standard axioms for the bounds/termination theorems; memory safety and undefined arithmetic of the C code itself are observed by sanitizers under the generators (testing)",
             "Lean 4 bounds and termination theorems over the model + sanitizer-instrumented differential correspondence")
@@ -172,5 +175,5 @@ for _k, (_a, _b, _c) in _T.items():
     PROPS[_k]["level_text"], PROPS[_k]["level_note"], PROPS[_k]["technique"] = _a, _b, _c
 
 # properties whose theorem module is not complete yet are not claimed
-for _k in ("C02", "C08", "C09", "C05", "C04", "C17"):  # unclaimed
+for _k in ("C02", "C08", "C09", "C05", "C04"):  # unclaimed
     PROPS[_k]["unclaimed"] = True
